@@ -889,8 +889,17 @@ fn partition(
         }
     }
 
+    // Grouping by roots puts the sub-groups of the roots first. Restore the order of the input
+    // file, because that order decides which files are kept by default, and the `top` and
+    // `bottom` priorities refer to it.
+    let input_order: HashMap<u128, usize> = files
+        .iter()
+        .enumerate()
+        .map(|(i, f)| (f.path.hash128(), i))
+        .collect();
     let mut file_sub_groups =
         FileSubGroup::group(files, &config.isolated_roots, !config.match_links);
+    file_sub_groups.sort_by_key(|g| g.files.iter().map(|f| input_order[&f.path.hash128()]).min());
 
     // Sort files to remove in user selected order.
     // The priorities at the beginning of the argument list have precedence over
